@@ -31,7 +31,10 @@ NVals(n) ==
     [] n = "blob" -> <<Raw(<<255, 0, 128>>), Raw(<< >>), Raw(<<0>>)>>
     [] n = "uuid" -> <<Raw(<<0, 17, 34, 51, 68, 85, 70, 119, 136, 153, 170, 187, 204, 221, 238, 255>>), Raw([i \in 1..16 |-> 0])>>
     [] n = "timeuuid" -> <<Raw(<<0, 17, 34, 51, 68, 85, 22, 119, 136, 153, 170, 187, 204, 221, 238, 255>>)>>
-    [] n = "inet" -> <<Raw(<<127, 0, 0, 1>>), Raw(<<32, 1, 13, 184, 0, 0, 0, 0, 0, 0, 0, 0, 0, 0, 0, 1>>)>>
+    [] n = "inet" -> <<Raw(<<127, 0, 0, 1>>), Raw(<<32, 1, 13, 184, 0, 0, 0, 0, 0, 0, 0, 0, 0, 0, 0, 1>>),
+                       \* 16-byte addresses that have a 4-byte look-alike (IPv4-mapped ::ffff:192.0.2.1, IPv4-compatible ::1.2.3.4) stay 16 bytes
+                       Raw(<<0, 0, 0, 0, 0, 0, 0, 0, 0, 0, 255, 255, 192, 0, 2, 1>>), Raw(<<0, 0, 0, 0, 0, 0, 0, 0, 0, 0, 0, 0, 1, 2, 3, 4>>),
+                       Raw(<<0, 0, 0, 0>>), Raw([i \in 1..16 |-> 0])>>
     [] n = "decimal" -> <<[k |-> "dec", scale |-> I(0, << >>), int |-> I(0, << >>)], [k |-> "dec", scale |-> I(1, <<3>>), int |-> I(1, <<129>>)],
                           [k |-> "dec", scale |-> I(0, <<255, 255, 255, 127>>), int |-> I(0, <<0, 0, 0, 0, 0, 0, 0, 0, 0, 1>>)]>>
     [] n = "duration" -> <<[k |-> "dur", months |-> I(0, << >>), days |-> I(0, << >>), nanos |-> I(0, << >>)],
